@@ -24,12 +24,16 @@ Profile == Env("PROFILE", "lines")
 (* pools: texts over ASCII, blanks, punctuation and multi-byte characters *)
 LinePool == << <<97>>, <<97, 98>>, <<98, 32, 97>>, <<>>, <<97, 97>>, <<233>>, <<120, 233, 32, 98>>, <<97, 46, 98>>,
                <<32, 32, 97>>, <<98>>, <<97, 98, 97>>, <<28450, 97>>, <<65, 98>>, <<97, 32, 97, 32, 97>>,
-               <<40, 97, 41>>, <<98, 98>> >>
+               <<40, 97, 41>>, <<98, 98>>, <<97, 47, 98>>, <<97, 92, 98, 32, 97, 47>> >>
 PatPool == << <<97>>, <<98>>, <<94, 97>>, <<97, 36>>, <<92, 60, 97>>, <<97, 92, 62>>, <<97, 42>>, <<120, 42>>, <<46>>,
               <<40, 97, 124, 98, 41, 43>>, <<91, 94, 97, 93>>, <<94, 36>>, <<233>>, <<97, 98>>, <<>>, <<92, 60>>,
-              <<98, 42>>, <<40, 97, 41, 40, 98, 41, 63>>, <<94>>, <<36>>, <<32>>, <<65>> >>
+              <<98, 42>>, <<40, 97, 41, 40, 98, 41, 63>>, <<94>>, <<36>>, <<32>>, <<65>>,
+              (* a multi-byte literal under a quantifier; a pattern holding the delimiter; one ending in an escaped backslash *)
+              <<233, 42>>, <<97, 233, 63>>, <<97, 47>>, <<97, 92, 92>> >>
 RepPool == << <<>>, <<88>>, <<92, 48, 92, 48>>, <<91, 92, 49, 93>>, <<92, 92>>, <<233>>, <<38>>, <<92, 50, 45, 92, 49>>,
-              <<97>>, <<120, 121>> >>
+              <<97>>, <<120, 121>>,
+              (* the delimiter, a double quote and a bar inside the replacement *)
+              <<120, 34, 121>>, <<47, 124, 122>>, <<47, 34>> >>
 RegPool == <<0, 97, 98, 65, 0, 97>>
 MarkPool == <<97, 98>>
 
